@@ -342,6 +342,10 @@ def lean_check(ctx: Ctx) -> LeanStatus:
         raise Infra(f"{module_path(mod)} missing")
     rc0, log0 = build_shared()
     rc, log = _lake(["build", mod], lock=prop)
+    if rc != 0 and not re.search(r"^error: \S+\.lean:\d+:\d+:", log, re.M):
+        # no located Lean error: two lake processes building shared modules at the same time can
+        # trip over each other's output files; retry once, serialised under the global lock
+        rc, log = _lake(["build", mod], lock="global")
     if rc0 != 0:
         log = log0 + log
     build_ok = rc == 0
